@@ -9,6 +9,7 @@ import json
 import os
 import time
 import vlib
+import vseam
 
 PID = "C11"
 DEFS = ("mpt_loop=drv_mpt_loop", "mpt_notify_wait=hk_notify_wait", "mpt_notify_next=hk_notify_next")
@@ -108,6 +109,8 @@ def run_chunks(exe, behs):
     for lo in range(0, len(behs), CHUNK):
         part = behs[lo:lo + CHUNK]
         r, _ = vlib.run_driver(exe, vlib.to_script(part), env=ENV)
+        # the per-behaviour alarm can fire on an overloaded machine: such a behaviour is run once more on its own
+        r = vseam.rerun_hung(exe, part, r)
         for x in r:
             if isinstance(x.get("b"), int):
                 x["b"] += lo
@@ -532,9 +535,11 @@ def run_part(ck, tier):
     # 3. binding B: seeded histories (fine-grained calls and runs of the real mpt_loop) validated by TLC
     hist = gen_histories(ck, cfg["nhist"], cfg["steps"])
     recs2, _ = vlib.run_driver(exe, vlib.to_script(hist), env=ENV, timeout=1200)
+    recs2 = vseam.rerun_hung(exe, hist, recs2)
     events = flatten(hist, recs2)
     hx = gen_histories(ck, max(cfg["nhist"] // 4, 6), cfg["steps"], cxx=True)
     recs3, _ = vlib.run_driver(excxx, vlib.to_script(hx), env=ENV, timeout=1200)
+    recs3 = vseam.rerun_hung(excxx, hx, recs3)
     evx = flatten(hx, recs3, base=len(hist))
     for e in evx:
         e["cxx"] = 1
@@ -573,6 +578,7 @@ def replay(det, path="-"):
         return 2
     exe = build_poll() if det.get("poll") else build_cxx() if det.get("cxx") else build()
     recs, err = vlib.run_driver(exe, vlib.to_script([beh]), env=ENV)
+    recs = vseam.rerun_hung(exe, [beh], recs)
     events = flatten([beh], recs)
     ok, matched, _ = vlib.validate_trace("Trace_Notify", events, tag="Trace_Notify_replay")
     if not ok:
